@@ -440,11 +440,73 @@ func ruleHandshakeTable(c *Ctx) {
 			lineVar = assignedVar(p, info, call)
 		}
 	}
+	// alternative idiom: strings.Join(fields, "|") over a []string literal of six
+	// elements (numbers through strconv.Itoa, the protocol through string())
+	var joinFields []ast.Expr
+	var fieldsVar *types.Var
+	if line == nil {
+		for _, call := range f.Calls() {
+			if p.CalleeName(f, call) != "strings.Join" || len(call.Args) != 2 {
+				continue
+			}
+			if sep, ok := constString(info, call.Args[1]); !ok || sep != "|" {
+				continue
+			}
+			fv, _ := identObj(info, call.Args[0]).(*types.Var)
+			if fv == nil {
+				continue
+			}
+			ast.Inspect(f.Body, func(x ast.Node) bool {
+				as, ok := x.(*ast.AssignStmt)
+				if !ok || len(as.Lhs) != 1 || len(as.Rhs) != 1 || identObj(info, as.Lhs[0]) != fv {
+					return true
+				}
+				if cl, ok := ast.Unparen(as.Rhs[0]).(*ast.CompositeLit); ok && len(cl.Elts) == 6 {
+					joinFields = cl.Elts
+				}
+				return true
+			})
+			if joinFields != nil {
+				line, fieldsVar = call, fv
+				lineVar = assignedVar(p, info, call)
+			}
+		}
+	}
 	if line == nil || len(pvVars) != 3 || lv == nil {
 		c.R.Violate("R-TABLE/handshake", p.Pos(f.Node()), f.Name, "six-field line", "no Sprintf with exactly five '|' builds the handshake line (or the negotiation call / listener variable was not found)", nil)
 		return
 	}
 	format, _ := constString(info, line.Args[0])
+	// unwrap the string conversions the Join form needs
+	unwrap := func(e ast.Expr) ast.Expr {
+		e = ast.Unparen(e)
+		if call, ok := e.(*ast.CallExpr); ok && len(call.Args) == 1 {
+			if tv, ok := info.Types[call.Fun]; ok && tv.IsType() {
+				return ast.Unparen(call.Args[0])
+			}
+			switch p.CalleeName(f, call) {
+			case "strconv.Itoa", "fmt.Sprint":
+				inner := ast.Unparen(call.Args[0])
+				if c2, ok := inner.(*ast.CallExpr); ok && len(c2.Args) == 1 {
+					if tv, ok := info.Types[c2.Fun]; ok && tv.IsType() {
+						return ast.Unparen(c2.Args[0]) // strconv.Itoa(int(x))
+					}
+				}
+				return inner
+			}
+		}
+		return e
+	}
+	if joinFields != nil {
+		// present the six elements as if they were the Sprintf arguments
+		format = "%d|%d|%s|%s|%s|%s"
+		fake := &ast.CallExpr{Fun: line.Fun, Args: []ast.Expr{line.Args[0]}}
+		for _, el := range joinFields {
+			fake.Args = append(fake.Args, unwrap(el))
+		}
+		fake.Lparen, fake.Rparen = line.Lparen, line.Rparen
+		line = &ast.CallExpr{Fun: line.Fun, Args: fake.Args, Lparen: line.Lparen, Rparen: line.Rparen}
+	}
 	addrCall := func(e ast.Expr, method string) bool {
 		// listener.Addr().<method>()  (possibly through a local alias of listener.Addr())
 		c1, ok := ast.Unparen(p.Deref(f, e)).(*ast.CallExpr)
@@ -482,6 +544,37 @@ func ruleHandshakeTable(c *Ctx) {
 	ok7 := true
 	for _, m := range g.Nodes {
 		as, ok := m.Ast.(*ast.AssignStmt)
+		if fieldsVar != nil {
+			// join form: fields = append(fields, x) is the extension
+			if !ok || len(as.Lhs) != 1 || len(as.Rhs) != 1 || identObj(info, as.Lhs[0]) != fieldsVar {
+				continue
+			}
+			ap, isAp := ast.Unparen(as.Rhs[0]).(*ast.CallExpr)
+			if !isAp || p.CalleeName(f, ap) != "builtin.append" {
+				continue
+			}
+			n7++
+			if len(ap.Args) != 2 || identObj(info, ap.Args[0]) != fieldsVar {
+				ok7 = false
+			}
+			mm := m
+			if !g.OnlyViaEdge(mm, func(e *Edge) bool {
+				at, isAt := p.EdgeAtom(f, e)
+				if !isAt || at.Kind != "cmp" || at.Op != token.NEQ {
+					return false
+				}
+				call, isC := ast.Unparen(at.X).(*ast.CallExpr)
+				if !isC || p.CalleeName(f, call) != "os.Getenv" {
+					return false
+				}
+				k, _ := constString(info, call.Args[0])
+				sv, isS := constString(info, at.Y)
+				return k == "PLUGIN_MULTIPLEX_GRPC" && isS && sv == ""
+			}) {
+				ok7 = false
+			}
+			continue
+		}
 		if !ok || len(as.Lhs) != 1 || identObj(info, as.Lhs[0]) != lineVar || lineVar == nil || m == g.NodeOf(line) {
 			continue
 		}
